@@ -203,6 +203,7 @@ Proof.
   induction parts as [|p ps IH]; intros done w r done' w' Hna Hsafe Hcause Hext Hnd Hnew; cbn [fill_loop].
   - intros [= <- <- <-]. split; [exact Hext|]. split; [exists 0; cbn; rewrite app_nil_r; reflexivity|congruence].
   - assert (Hq0 : forall wx, quiet pl 0 -> quiet pl (wcnt wx)) by (intros wx H0; eapply quiet_mono; [exact H0|lia]).
+    assert (Hsf : safe_for k COk) by (right; split; [exact Hna|discriminate]).
     destruct (p_early p) eqn:Hearly.
     2,3: intros [= <- <- <-]; (split; [exact Hext|]); (split; [exists 0; cbn; rewrite app_nil_r; reflexivity|]);
          intros _; destruct Hcause as [H0|Hok]; [apply Hq0; exact H0|
@@ -236,7 +237,7 @@ Proof.
             [split; [exact Heq|apply Hq0; exact H0]|congruence].
         - destruct (Hok p (or_introl eq_refl)) as [_ Hfin]. rewrite Hfin in Hrun.
           destruct (api_file_safe_gen pl fresh fresh_spec Hamo k [] None (Some (p_out p)) (p_chunks p) COk w CErr wp
-                      (or_introl eq_refl) (or_intror (conj Hna ltac:(discriminate))) Hrun Hr) as [Heq|(_ & _ & (o & _ & _ & Hne & _))];
+                      (or_introl eq_refl) Hsf Hrun Hr) as [Heq|(_ & _ & (o & _ & _ & Hne & _))];
             [|congruence].
           split; [exact Heq|]. apply fired_quiet. eapply api_noin_fail_fault; [exact Hna|exact Hrun|exact Hr]. }
       destruct Hsame as [Heq Hq]. split; [eapply extends_same; [exact Hext|exact Heq]|].
@@ -251,7 +252,7 @@ Proof.
             [split; [exact Heq|apply Hq0; exact H0]|congruence].
         - destruct (Hok p (or_introl eq_refl)) as [_ Hfin]. rewrite Hfin in Hrun.
           destruct (api_file_safe_gen pl fresh fresh_spec Hamo k [] None (Some (p_out p)) (p_chunks p) COk w CPanic wp
-                      (or_introl eq_refl) (or_intror (conj Hna ltac:(discriminate))) Hrun Hr) as [Heq|(_ & _ & (o & _ & _ & Hne & _))];
+                      (or_introl eq_refl) Hsf Hrun Hr) as [Heq|(_ & _ & (o & _ & _ & Hne & _))];
             [|congruence].
           split; [exact Heq|]. apply fired_quiet. eapply api_noin_fail_fault; [exact Hna|exact Hrun|exact Hr]. }
       destruct Hsame as [Heq Hq]. split; [eapply extends_same; [exact Hext|exact Heq]|].
@@ -298,7 +299,7 @@ Proof.
           destruct (api_file_safe_gen pl fresh fresh_spec Hamo KFlag [] None (Some final) mchunks COk w1 CErr w2
                       (or_introl eq_refl) (or_introl eq_refl) Hmerge Hr2) as [Heq|(_ & _ & (o & _ & _ & Hne & _))];
             [|congruence].
-          split; [exact Heq|]. apply fired_quiet. eapply api_noin_fail_fault; [discriminate|exact Hmerge|exact Hr2]. }
+          split; [exact Heq|]. apply fired_quiet. refine (api_noin_fail_fault KFlag final mchunks w1 _ w2 _ Hmerge Hr2). discriminate. }
       destruct Hsame as [Heq Hq2].
       destruct (rollback_restores m0 done w2 Hq2 Hnd_done (extends_same m0 done (wfs w1) (wfs w2) Hext Heq)) as [Hback _].
       destruct (rollback pl done w2) as [bad w3]. cbn [fst snd] in Hback. intros [= <- <-] _. left. exact Hback.
@@ -312,7 +313,7 @@ Proof.
           destruct (api_file_safe_gen pl fresh fresh_spec Hamo KFlag [] None (Some final) mchunks COk w1 CPanic w2
                       (or_introl eq_refl) (or_introl eq_refl) Hmerge Hr2) as [Heq|(_ & _ & (o & _ & _ & Hne & _))];
             [|congruence].
-          split; [exact Heq|]. apply fired_quiet. eapply api_noin_fail_fault; [discriminate|exact Hmerge|exact Hr2]. }
+          split; [exact Heq|]. apply fired_quiet. refine (api_noin_fail_fault KFlag final mchunks w1 _ w2 _ Hmerge Hr2). discriminate. }
       destruct Hsame as [Heq Hq2].
       destruct (rollback_restores m0 done w2 Hq2 Hnd_done (extends_same m0 done (wfs w1) (wfs w2) Hext Heq)) as [Hback _].
       destruct (rollback pl done w2) as [bad w3]. cbn [fst snd] in Hback. intros [= <- <-] _. left. exact Hback.
@@ -322,3 +323,83 @@ Proof.
     destruct (rollback pl done w1) as [bad w3]. cbn [fst snd] in Hback. intros [= <- <-] _. left. exact Hback.
 Qed.
 End MultiProofs.
+
+(* ---------- closed statements ---------- *)
+(* exactly one cause of failure for a multi-record run: no filesystem fault at all (records and the merge
+   may end in any way), or every record and the merge would succeed and a single fault is injected *)
+Definition multi_cause (pl : plan) (parts : list part) (mfin : ctl) : Prop :=
+  pl = nofault \/ (parts_ok parts /\ mfin = COk /\ exists n, pl = single n).
+
+Lemma multi_cause_amo pl parts mfin :
+  multi_cause pl parts mfin -> amo pl /\ (quiet pl 0 \/ (parts_ok parts /\ mfin = COk)).
+Proof.
+  intros [->|(Hok & Hm & n & ->)].
+  - split; [apply amo_nofault|left; apply nofault_quiet].
+  - split; [apply amo_single|right; split; assumption].
+Qed.
+
+(* merge mode: whichever record fails (after any number k of written parts), or the merge step, every
+   intermediate written so far is rolled back *)
+Lemma multi_fill_merge_fault_safe_proof fresh :
+  (forall m, m !! fresh m = None) ->
+  forall pl parts mfin, multi_cause pl parts mfin ->
+  forall k final mchunks m0 tr,
+  k <> KAlways -> (forall p, In p parts -> safe_for k (p_fin p)) ->
+  NoDup (map p_out parts) -> (forall p, In p parts -> m0 !! p_out p = None) ->
+  forall r w', multi_fill pl fresh true k parts final mchunks mfin (W m0 0 tr) = (r, w') -> r <> COk ->
+  unchanged m0 (wfs w') \/
+  (exists done w1, fill_loop pl fresh k parts [] (W m0 0 tr) = (COk, done, w1) /\
+                   fst (api_file pl fresh KFlag [] None (Some final) mchunks mfin w1) = COk).
+Proof.
+  intros Hfresh pl parts mfin Hcause k final mchunks m0 tr Hna Hsafe Hnd Hnew r w' Hrun Hr.
+  destruct (multi_cause_amo pl parts mfin Hcause) as [Hamo Hc].
+  destruct (multi_fill_merge_safe_gen pl fresh Hfresh Hamo k parts final mchunks mfin m0 tr r w' Hna Hsafe Hc Hnd Hnew Hrun Hr)
+    as [Heq|Hres]; [left; apply eq_unchanged; exact Heq|right; exact Hres].
+Qed.
+
+(* non-merge mode (and every multi-output driver without rollback): what remains after a failure is the
+   original filesystem plus exactly the first n completed parts, for some n *)
+Lemma multi_fill_keeps_prefix_partial_proof fresh :
+  (forall m, m !! fresh m = None) ->
+  forall pl parts mfin, multi_cause pl parts mfin ->
+  forall k final mchunks m0 tr,
+  k <> KAlways -> (forall p, In p parts -> safe_for k (p_fin p)) ->
+  NoDup (map p_out parts) -> (forall p, In p parts -> m0 !! p_out p = None) ->
+  forall r w', multi_fill pl fresh false k parts final mchunks mfin (W m0 0 tr) = (r, w') ->
+  exists n, extends m0 (firstn n (map p_out parts)) (wfs w').
+Proof.
+  intros Hfresh pl parts mfin Hcause k final mchunks m0 tr Hna Hsafe Hnd Hnew r w'.
+  destruct (multi_cause_amo pl parts mfin Hcause) as [Hamo Hc].
+  unfold multi_fill. destruct (fill_loop pl fresh k parts [] (W m0 0 tr)) as [[r1 done] w1] eqn:Hloop.
+  intros [= <- <-].
+  assert (Hc1 : quiet pl 0 \/ parts_ok parts) by (destruct Hc as [H0|[Hok _]]; [left; exact H0|right; exact Hok]).
+  destruct (fill_loop_spec pl fresh Hfresh Hamo k m0 parts [] (W m0 0 tr) r1 done w1 Hna Hsafe Hc1 (extends_nil m0) Hnd Hnew Hloop)
+    as (Hext & (n & Hdone) & _).
+  exists n. cbn [app] in Hdone. rewrite <- Hdone. exact Hext.
+Qed.
+
+(* The same transaction with the rollback registered too late (only once the merge step is reached):
+   a record that fails after k >= 1 written parts leaves those parts behind.  This is the abstract shape
+   of the mutation "move the deferred rollback into mergeForms". *)
+Definition multi_fill_late (pl : plan) (fresh : gmap positive file -> positive) (k : key) (parts : list part)
+           (final : positive) (mchunks : list bytes) (mfin : ctl) (w : world) : ctl * world :=
+  let '(r, done, w1) := fill_loop pl fresh k parts [] w in
+  match r with
+  | COk => let '(r2, w2) := api_file pl fresh KFlag [] None (Some final) mchunks mfin w1 in
+           let '(bad, w3) := rollback pl done w2 in
+           (match r2 with CPanic => CPanic | CErr => CErr | COk => if bad then CErr else COk end, w3)
+  | _ => (r, w1)
+  end.
+
+Lemma late_rollback_leaves_parts_refuted_proof :
+  exists r w', multi_fill_late nofault fresh_path KNone
+                 [Part COk 2%positive [[1%N]] COk; Part CErr 3%positive [] COk] 4%positive [] COk (W ∅ 0 []) = (r, w') /\
+    r = CErr /\ wfs w' !! 2%positive = Some (File [1%N] mode_new).
+Proof. eexists _, _. split; [vm_compute; reflexivity|]. split; [reflexivity|vm_compute; reflexivity]. Qed.
+
+(* the transaction as it is: the same run is rolled back *)
+Lemma early_rollback_example :
+  exists r w', multi_fill nofault fresh_path true KNone
+                 [Part COk 2%positive [[1%N]] COk; Part CErr 3%positive [] COk] 4%positive [] COk (W ∅ 0 []) = (r, w') /\
+    r = CErr /\ wfs w' !! 2%positive = None /\ map_to_list (wfs w') = [].
+Proof. eexists _, _. split; [vm_compute; reflexivity|]. split; [reflexivity|split; vm_compute; reflexivity]. Qed.
